@@ -3,7 +3,7 @@ HOOK_COMMITS = ["39c5112", "584a771"]
 
 ENGINES = [
     {"name": "KM", "path": "/verif/kani-km + /verif/hbmodel",
-     "serves_properties": ["C01", "C02", "C03", "C04", "C05", "C06", "C07", "C08", "C09", "C10", "C11", "C12", "C13", "C14", "C17"],
+     "serves_properties": ["C01", "C02", "C03", "C04", "C05", "C06", "C07", "C08", "C09", "C10", "C11", "C12", "C13", "C14", "C16", "C17"],
      "kind_free_text": "Kani 0.68 compiles griddle (unchanged, /repo working tree) against a contract model of hashbrown's raw API; CBMC 6.11/CaDiCaL decides one-step inductive harnesses from arbitrary INV states (concrete table layouts, symbolic contents/arguments/callback decisions)"},
 ]
 
@@ -72,6 +72,10 @@ CHECKS = {
         text="Pairs (and a triple) of maps in different shapes, phases and hasher ids whose contents are related only by assumptions over stored pairs: equal contents imply ==, symmetry, reflexivity, equal len/get/contains and equal iteration multiplicity for the witness key; a single differing value (also one parked in an old table) or key implies != both ways; transitivity on three maps. Debug output excluded (core::fmt).",
         design_ref="DESIGN.md §5 C14", note=_KM_NOTE + " 4 elements per map; Debug formatting outside the claim.",
         technique="SAT-based bounded model checking (Kani/CBMC) over pairs/triples of symbolic table states"),
+    "C16": dict(
+        text="With the serde feature: (1) serialising a map/set in any INV state declares exactly len() and emits each element exactly once, in iteration order (recording Serializer, symbolic contents); (2) deserialising ANY record of <= 3 symbolic entries (duplicates allowed) yields the map sequential insertion yields, and HashSet::deserialize_in_place into any INV destination leaves exactly the record's elements. (1) and (2) compose to the round trip; a single round-trip harness does not finish under CBMC.",
+        design_ref="DESIGN.md §5 C16, A.3", note=_KM_NOTE + " The Serializer/Deserializer are 150 lines in the harness crate (no data format, no formatting); records of <= 3 entries.",
+        technique="SAT-based bounded model checking (Kani/CBMC) with a recording Serializer and a replaying Deserializer"),
     "C17": dict(
         text="The same harnesses are decided twice, with and without -C debug-assertions; the functional postconditions fully determine results, so both passing means equal behaviour. No assertion tagged debug-only (griddle's or the dependency's, mirrored in the model) may fail in the debug build, and Kani's overflow checks (always on) show no size computation can wrap.",
         design_ref="DESIGN.md §3.10, §5 C17", note=_KM_NOTE + " -C overflow-checks=off is not honoured by Kani; a reachable overflow is reported instead.",
@@ -81,5 +85,3 @@ CHECKS = {
 NOT_APPLICABLE = {
     "C15": "rayon work-stealing schedules: Kani/CBMC has no concurrency support and rayon-core cannot be symbolically executed; see DESIGN.md §6",
 }
-for _p in ["C16"]:
-    NOT_APPLICABLE.setdefault(_p, "check under construction in this session (harnesses not yet registered); will be claimed once its quick tier passes on the unchanged tree")
